@@ -9,9 +9,9 @@ termination token, C03; every `run` loop leaves on termination tokens) is not pa
 running (`fail`). The executor reads the termination token of each workflow output port (`read`), closes when the
 last one arrived, cancels when one carries FAILED / CANCELLED, and finally returns or raises (`final`).
 
-`fixed = false` is the code as it is: `_cancel` sets `_closed = True` without terminating the steps, so the `close()`
-in `run`'s `except` is a no-op. `fixed = true` is the repaired `_cancel` (fixes/C04-executor-cancel.patch), which
-calls `close()`. -/
+`fixed = true` is the code as it is now (since fix 88472de `_cancel` calls `close()`); `fixed = false` is the code
+before that fix: `_cancel` set `_closed = True` without terminating the steps, so the `close()` in `run`'s `except` was
+a no-op. Which of the two the current source is, is extracted on every run (`Gen.cancelCallsClose`). -/
 namespace SFV.Exec
 open SFV.Net
 
